@@ -322,6 +322,10 @@ func vhC19Hist() {
 			copy(nv, a.vals)
 			al := nextAlias
 			nextAlias++
+			if op == 'c' && a.alias < 0 {
+				// Clone keeps the pending lazy transposition (it copies the saved access pattern): a later UT on the clone undoes it
+				al = -1 - al
+			}
 			if r == a.t {
 				// only a tensor that is not a view may be returned as it is
 				vAssert(op == 'z' && a.t.viewOf == 0 && a.t.old.IsZero(), "materialize-copies-views")
